@@ -567,26 +567,40 @@ func (c *Ctx) lookupLocalName(name string, env *Env) *Val {
 		// several definitions: the one in scope at the current program point is the
 		// definition closest to it among those that dominate it
 		if c.curBlk != nil {
+			// the program points at which the name stood for each value: the places where
+			// the source mentions the variable (assignments and reads alike); the value
+			// itself may have been computed much earlier (x = y binds x to y's old value)
 			var best ssa.Value
+			var bestIn ssa.Instruction
 			tie := false
 			for v := range uniq {
-				in, ok := v.(ssa.Instruction)
-				if !ok || in.Block() == nil || !(in.Block() == c.curBlk || in.Block().Dominates(c.curBlk)) {
-					continue
+				var at []ssa.Instruction
+				if c.dbgAt != nil && c.dbgAt[name] != nil {
+					at = c.dbgAt[name][v]
 				}
-				if best == nil {
-					best = v
-					continue
-				}
-				bb := best.(ssa.Instruction).Block()
-				switch {
-				case bb == in.Block():
-					// two definitions in one block: the later instruction is the one in scope
-					if instrIndex(in) > instrIndex(best.(ssa.Instruction)) {
-						best = v
+				if len(at) == 0 {
+					if in, ok := v.(ssa.Instruction); ok {
+						at = []ssa.Instruction{in}
 					}
-				case bb.Dominates(in.Block()):
-					best, tie = v, false
+				}
+				for _, in := range at {
+					if in.Block() == nil || !(in.Block() == c.curBlk || in.Block().Dominates(c.curBlk)) {
+						continue
+					}
+					if best == nil {
+						best, bestIn = v, in
+						continue
+					}
+					bb := bestIn.Block()
+					switch {
+					case bb == in.Block():
+						// two mentions in one block: the later instruction is the one in scope
+						if instrIndex(in) > instrIndex(bestIn) {
+							best, bestIn = v, in
+						}
+					case bb.Dominates(in.Block()):
+						best, bestIn, tie = v, in, false
+					}
 				}
 			}
 			if best != nil && !tie {
